@@ -150,10 +150,17 @@ func TestVerif_C15(t *testing.T) {
 			case c < 6:
 				op = vk.CacheOp{Kind: "add", Event: vk.Pick(r, pool)}
 			case c < 9:
-				if r.IntN(2) == 0 {
+				switch r.IntN(3) {
+				case 0:
 					op = vk.CacheOp{Kind: "find", Filters: []*mocrelay.ReqFilter{{}}}
-				} else {
+				case 1:
 					op = vk.CacheOp{Kind: "find", Filters: fg.Filters(2)}
+				default: // the listing again, spelled as a query by id for every event of the pool
+					ids := make([]string, len(pool))
+					for j, e := range pool {
+						ids[j] = e.ID
+					}
+					op = vk.CacheOp{Kind: "find", Filters: []*mocrelay.ReqFilter{{IDs: ids}}}
 				}
 			default:
 				op = vk.CacheOp{Kind: "len"}
@@ -278,10 +285,17 @@ func TestVerif_C15(t *testing.T) {
 				fg := &vk.FilterGen{R: rr, Events: pool, Authors: g.Authors, TimeLo: g.TimeBase, TimeHi: g.TimeBase + g.TimeRange}
 				for !stop.Load() {
 					var fs []*mocrelay.ReqFilter
-					if rr.IntN(2) == 0 {
+					switch rr.IntN(3) {
+					case 0:
 						fs = []*mocrelay.ReqFilter{{}}
-					} else {
+					case 1:
 						fs = fg.Filters(2)
+					default:
+						ids := make([]string, len(pool))
+						for j, e := range pool {
+							ids[j] = e.ID
+						}
+						fs = []*mocrelay.ReqFilter{{IDs: ids}}
 					}
 					L := cache.Find(fs)
 					rep.Count("concurrent_listings", 1)
